@@ -468,6 +468,7 @@ type connCase struct {
 	flipBit           int   // -1 or bit offset into the server->client stream
 	truncate          int   // -1 or number of bytes after which the server closes
 	reply             bool  // the server sends one more packet after it has received all client packets
+	senders           int   // >1: the client packets are sent by that many threads calling Connection.Send concurrently
 }
 
 type connResult struct {
@@ -569,14 +570,37 @@ func runConn(c *enum.Ctx, cc connCase) connResult {
 			return
 		}
 		// the client sends its packets, then collects what arrives until 2 s of silence
-		for i, n := range cc.toServer {
-			p, err := liteclient.NewPacket(payloadOf(n, byte(0x60+i)))
-			if err == nil {
-				err = conn.Send(p)
+		if cc.senders > 1 {
+			done := 0
+			for t := 0; t < cc.senders; t++ {
+				t := t
+				s.GoClient(fmt.Sprintf("sender%d", t), func() {
+					for i, n := range cc.toServer {
+						if i%cc.senders != t {
+							continue
+						}
+						p, err := liteclient.NewPacket(payloadOf(n, byte(0x60+i)))
+						if err == nil {
+							err = conn.Send(p)
+						}
+						if err != nil && res.sendErr == nil {
+							res.sendErr = err
+						}
+					}
+					done++
+				})
 			}
-			if err != nil {
-				res.sendErr = err
-				break
+			s.Yield("join senders", func() bool { return done == cc.senders })
+		} else {
+			for i, n := range cc.toServer {
+				p, err := liteclient.NewPacket(payloadOf(n, byte(0x60+i)))
+				if err == nil {
+					err = conn.Send(p)
+				}
+				if err != nil {
+					res.sendErr = err
+					break
+				}
 			}
 		}
 		for len(res.delivered) < expect+2 {
@@ -665,10 +689,28 @@ func judgeConn(c *enum.Ctx, cc connCase, res connResult, altered int) {
 			c.Fail("client-packets-lost", "the server received %d of the %d packets the client sent", len(res.serverGot), len(cc.toServer))
 			return
 		}
-		for i, n := range cc.toServer {
-			if !bytes.Equal(res.serverGot[i], payloadOf(n, byte(0x60+i))) {
-				c.Fail("client-payload-differs", "client packet %d (%d bytes) arrived with a different payload", i, n)
-				return
+		if cc.senders > 1 {
+			// any order of arrival; every packet exactly once
+			used := make([]bool, len(res.serverGot))
+			for i, n := range cc.toServer {
+				found := false
+				for k := range res.serverGot {
+					if !used[k] && bytes.Equal(res.serverGot[k], payloadOf(n, byte(0x60+i))) {
+						used[k], found = true, true
+						break
+					}
+				}
+				if !found {
+					c.Fail("client-payload-differs", "client packet %d (%d bytes, sent concurrently) did not arrive intact", i, n)
+					return
+				}
+			}
+		} else {
+			for i, n := range cc.toServer {
+				if !bytes.Equal(res.serverGot[i], payloadOf(n, byte(0x60+i))) {
+					c.Fail("client-payload-differs", "client packet %d (%d bytes) arrived with a different payload", i, n)
+					return
+				}
 			}
 		}
 		if len(res.delivered) != len(sent) {
@@ -724,6 +766,15 @@ func connHarnesses(r *fw.Run) []fw.HarnessSpec {
 		}
 		c.Label("payload sizes to client %d.., to server %d.. (%d packets each way)", cc.toClient[0], cc.toServer[0], len(cc.toClient))
 		c.Case([]byte(fmt.Sprintf("sizes/%d/%d", cc.toClient[0], len(cc.toClient))), true)
+		judgeConn(c, cc, runConn(c, cc), -1)
+	})
+	// two and three threads call Connection.Send at the same time: each frame must reach the server intact (the cipher
+	// stream and the order of the bytes on the wire have to stay in step), in any order
+	iso("connection/concurrent-senders", r.Pick(2, 3), func(c *enum.Ctx) {
+		n := 2 + c.ChooseFree(2)
+		cc := connCase{keySeed: 6, randSeed: 5, toClient: []int{1}, toServer: []int{3, 40, 0, 17, 300, 5}[:2*n], flipBit: -1, truncate: -1, reply: true, senders: n}
+		c.Label("%d threads send %v concurrently", n, cc.toServer)
+		c.Case([]byte(fmt.Sprintf("conc/%d", n)), true)
 		judgeConn(c, cc, runConn(c, cc), -1)
 	})
 	alphabet := []int{0, 1, 15, 16, 17, 255, 4096, 65536}
